@@ -616,19 +616,29 @@ def _indexed(eqn, ins, dom, D):
 
 def _scan(eqn, ins, dom):
   p = eqn.params
-  n_consts, n_carry = p['num_consts'], p['num_carry']
+  if 'num_consts' in p:
+    n_consts, n_carry = p['num_consts'], p['num_carry']
+  else:                      # jax >= 0.11: flat trees `ft_in` / `ft_out`, plain Jaxpr body
+    parts = p['ft_in'].unpack()
+    n_consts, n_carry = len(parts[0].vals), len(parts[1].vals)
   length, reverse = p['length'], p['reverse']
-  closed = p['jaxpr']
-  consts, carry, xs = ins[:n_consts], list(ins[n_consts:n_consts + n_carry]), ins[n_consts + n_carry:]
-  ys = None
+  j = p['jaxpr']
+  bconsts = tuple(getattr(j, 'consts', ()) or ())
+  body = getattr(j, 'jaxpr', j)
+  if not hasattr(body, 'eqns'):
+    body = j
+  consts, carry, xs = list(ins[:n_consts]), list(ins[n_consts:n_consts + n_carry]), ins[n_consts + n_carry:]
+  n_y = len(body.outvars) - n_carry
+  if len(eqn.outvars) != n_carry + n_y:
+    raise Unsupported('scan with forwarded outputs')
   order = range(length - 1, -1, -1) if reverse else range(length)
   collected = {}
   for t in order:
     xt = [x[t] if isinstance(x, np.ndarray) else np.asarray(x)[t] for x in xs]
-    outs = _eval(closed.jaxpr, closed.consts, list(consts) + carry + xt, dom)
+    xt = [x if isinstance(x, np.ndarray) else _obj(x) for x in xt]
+    outs = _eval(body, bconsts, consts + carry + xt, dom)
     carry = list(outs[:n_carry])
     collected[t] = outs[n_carry:]
-  n_y = len(closed.jaxpr.outvars) - n_carry
   ys = []
   for k in range(n_y):
     elems = [collected[t][k] for t in range(length)]
